@@ -17,6 +17,10 @@ if not b:
 ok, msg = units_e2e.regen_table()
 if not ok:
     print(msg)   # the C12 check reports this as a broken obligation; keep going with the committed table
+import gen_tie
+rg = gen_tie.regen()   # decision functions regenerated from the source (DESIGN 11.7)
+if not rg["ok"]:
+    print("\n".join(rg["errors"]))   # reported as broken obligations by the checks wired to them
 PY
 ( cd coq && coq_makefile -f _CoqProject -o Makefile $(find . -name '*.v' -not -path './gen/*' | sed 's|^\./||' | sort) $(ls gen/Gen*.v 2>/dev/null) >/dev/null && timeout 3000 make -j16 ) || echo "coq build incomplete (reported per property by the checks)"
 python3 - <<'PY'
